@@ -67,7 +67,7 @@ func c08Run(j c08Job) *jobReport {
 	if len(j.Slots) > 0 {
 		histOrigin = 100
 	}
-	p, err := newPairWorld("c08", 10000, []string{fmt.Sprintf("now:%d", startNow)}, &header, histOrigin)
+	p, err := newPairWorld("c08", 100000, []string{fmt.Sprintf("now:%d", startNow)}, &header, histOrigin)
 	if err != nil {
 		rep.fail("harness/setup", err.Error())
 		return rep
